@@ -61,4 +61,17 @@ VcfContigLength(ts, a) ==
   LET pos == TransformAll(a.transform, a.pos2)
       tl == TransformAll(a.transform, <<ts.L2>>)[1]
   IN Max({1, tl} \cup (IF Len(pos) > 0 THEN {pos[Len(pos)]} ELSE {}))
+
+\* ------------------------------------------------------------------ Newick / Nexus / FASTA
+\* The harness tokenises a Newick string into the preorder list of its nodes:
+\* <<label token, branch length in time units (or NOLEN), number of decimals printed, number of children>>.
+\* kids is the child order the Tree reports; a preorder list with child counts determines the ordered tree.
+NOLEN == -999999
+LabelOf(lab, u) == IF u \in DOMAIN lab THEN lab[u] ELSE -1
+NewickExpected(ts, par, kids, root, lab, withlen) ==
+  LET pre == PreFrom(kids, root, NumNodes(ts) + 1) IN
+  [i \in 1..Len(pre) |-> LET u == pre[i] IN
+       <<LabelOf(lab, u),
+         IF u = root \/ ~withlen THEN NOLEN ELSE TimeOf(ts, par[u]) - TimeOf(ts, u),
+         Len(kids[u])>>]
 =============================================================================
